@@ -262,6 +262,56 @@ pub fn c10(tier: Tier) -> i32 {
             l.samples.push(json!({"seq": esc(&seq), "width": w, "write_wrap_seq": esc(&whole_wrapped), "chunkings": chunkings_of(&seq).len()}));
         }
     });
+    // sequences whose bytes are not letters: blanks, TAB, form feed, NUL, high bytes (legal sequence
+    // content: no LF, no CR, no '>', which wrapping could move to a line start); every entry point must pass them through untouched
+    {
+        let specials: Vec<Vec<u8>> = vec![b" ".to_vec(), b"a ".to_vec(), b" a".to_vec(), b"a\t".to_vec(), b"\ta".to_vec(), b"a\x0c".to_vec(), b"a b".to_vec(), b"  ".to_vec(), b"ab \t ".to_vec(), vec![b'a', 0xff, 0x00, b' ']];
+        let specials = &specials;
+        let t_sp = par_sweep(specials.len() as u64, 1, |idx, l| {
+            let seq = &specials[idx as usize];
+            let head: &[u8] = b"id d";
+            let want = vec![(head.to_vec(), seq.clone())];
+            let wv = |f: &dyn Fn(&mut dyn std::io::Write) -> std::io::Result<()>| -> Vec<u8> {
+                let mut v = vec![];
+                f(&mut v).unwrap();
+                v
+            };
+            let owned = fasta::OwnedRecord { head: head.to_vec(), seq: seq.clone() };
+            let mut outs: Vec<(String, Vec<u8>)> = vec![
+                ("write_to".into(), wv(&|o| fasta::write_to(o, head, seq))),
+                ("write_parts".into(), wv(&|o| fasta::write_parts(o, b"id", Some(b"d"), seq))),
+                ("write_head+write_seq".into(), wv(&|o| { fasta::write_head(&mut *o, head)?; fasta::write_seq(o, seq) })),
+                ("OwnedRecord::write".into(), wv(&|o| owned.write(o))),
+            ];
+            for k in 0..=seq.len() {
+                let chunks = [&seq[..k], &seq[k..]];
+                outs.push((format!("write_seq_iter(split at {})", k), wv(&|o| { fasta::write_head(&mut *o, head)?; fasta::write_seq_iter(o, chunks.iter().cloned()) })));
+                for w in 1..=seq.len() + 1 {
+                    outs.push((format!("write_wrap_seq_iter(split at {}, width {})", k, w), wv(&|o| { fasta::write_head(&mut *o, head)?; fasta::write_wrap_seq_iter(o, chunks.iter().cloned(), w) })));
+                }
+            }
+            for w in 1..=seq.len() + 1 {
+                outs.push((format!("write_wrap(width {})", w), wv(&|o| fasta::write_wrap(o, b"id", Some(b"d"), seq, w))));
+                outs.push((format!("OwnedRecord::write_wrap(width {})", w), wv(&|o| owned.write_wrap(o, w))));
+            }
+            for (name, out) in &outs {
+                l.evals += 1;
+                l.nontrivial += 1;
+                l.count("special_sequence_cases", 1);
+                if let Err(e) = parse_back_fasta(out, &want) {
+                    l.violation(Violation {
+                        property: "C10".into(),
+                        sig: format!("{}|special-bytes", name.split('(').next().unwrap_or("")),
+                        detail: format!("sequence {:?} through {}: {}", esc(seq), name, e),
+                        weight: seq.len() as u64,
+                        replay: json!({"kind": "writer", "entry": name, "seq": esc(seq)}),
+                    });
+                }
+            }
+        });
+        println!("  sequences of special bytes: {} sequences, {} cases, {:.1}s", specials.len(), t_sp.evals, t_sp.wall_s);
+        tot.merge(t_sp);
+    }
     // long sequences: lengths around 256 / 512 and beyond, chunk boundaries and widths at and around
     // these sizes (a menu of cut points instead of all compositions), through the chunk-taking entry
     // points and through records parsed from input laid out with the same line lengths
@@ -366,7 +416,7 @@ pub fn c10(tier: Tier) -> i32 {
             tier: tier.name().into(),
             rule: format!("sequences = first n positional letters, n = 0..{}; every wrap width 1..n+2; {} headers (fixed menu: empty, spaces leading/trailing/multiple, '>' inside, non-UTF-8, CR inside / leading; plus ALL headers of <= 3 bytes over {{space, TAB, CR, letter, non-UTF-8 byte, '>', '@', '+'}} not ending in CR); entry points write_to, write_parts, write_wrap, write_head, write_id_desc, write_seq, write_wrap_seq, write_seq_iter, write_wrap_seq_iter, OwnedRecord::{{write,write_wrap}}, RefRecord::{{write,write_wrap}} (RefRecord parsed from every line splitting of the sequence, LF and CRLF); ALL 2^(n-1) compositions of the sequence into chunks, each also with 1-2 empty chunks inserted at every position; oracle: output parses back (reference parser and real reader) to (header, sequence), 2-3 records back to back parse to the list, wrapped lines <= width and all but the last = width, chunked output = whole output byte for byte (n >= 1); every call repeated into a writer that accepts only 1 or 3 bytes per write(): same bytes; PLUS long sequences (lengths 255, 256, 257, 300, 513, 700, 4097, 8193, 20011; thorough up to 140 003) with a menu of cut points at and around 64/256/512/4096/8192 (all 2- and 3-part splits over the menu, an empty chunk, regular lines of 60/70/80/256) and widths 1, 60, 70, 255-257, n-1..n+1: write_seq_iter / write_wrap_seq_iter = whole-sequence output, RefRecord::write of the record parsed from input with these line lengths (LF/CRLF, from next() and from a record set) parses back", maxn, heads_v.len()),
             exhaustive: true,
-            assumptions: vec!["sequence bytes are positional letters (no LF, CR, '>'); the writers never inspect sequence bytes".into()],
+            assumptions: vec!["sequence bytes are positional letters, plus a menu of 10 sequences of special bytes (blank, TAB, form feed, NUL, 0xff) through every entry point".into()],
             extra: json!({"states_note": "states = (sequence length, width, header, entry point, chunking) cases; transitions = writer calls"}),
         },
         tot,
